@@ -8,7 +8,7 @@ from hypothesis import strategies as st
 from ECAgent.Core import Model
 from ECAgent.Environments import DiscreteWorld, GridWorld, LineWorld, discrete_grid_pos_to_id, discreteGridPosToID
 from vf.engine import Violation, InvalidCase
-from vf.fixtures import check, wone_of
+from vf.fixtures import check, with_done, wone_of
 
 PROPERTY = "C09"
 BUDGET = {"quick": 150, "thorough": 450}
@@ -51,6 +51,8 @@ def build(case):
 
 def run_case(case):
     world, (w, h, d) = build(case)
+    if case.get("done") is not None:       # the model was marked complete: its grid keeps answering
+        world.model.complete()
     other = None
     if case.get("later"):
         # a second grid world of another shape is created AFTER the world under test and stays alive: worlds are independent
@@ -146,7 +148,7 @@ def run_case(case):
     if other is not None:
         last = tuple(max(e, 1) - 1 for e in oshape)
         check(tuple(other.get_cell(*last)["pos"]) == last, "get-cell-wrong-row", f"{case}: companion world (after the lookups): get_cell{last} returned another cell")
-    labels = (["wrap_env"] if case.get("wrap") else []) + (["second-world-alive"] if other is not None else []) + [f"zero-axes-{''.join('0' if e == 0 else 'n' for e in (w, h, d))}", "cubic" if len({ew, eh, ed}) == 1 else "non-cubic", kind]
+    labels = (["wrap_env"] if case.get("wrap") else []) + (["model-completed-then-used"] if case.get("done") is not None else []) + (["second-world-alive"] if other is not None else []) + [f"zero-axes-{''.join('0' if e == 0 else 'n' for e in (w, h, d))}", "cubic" if len({ew, eh, ed}) == 1 else "non-cubic", kind]
     return {"nontrivial": ncells >= 2, "labels": labels}
 
 
@@ -156,7 +158,7 @@ def strategy(tier):
     line = st.builds(lambda w, wr: {"kind": "line", "w": w, "wrap": wr}, st.integers(1, 60), st.booleans())
     grid = st.builds(lambda w, h, wr: {"kind": "grid", "w": w, "h": h, "wrap": wr}, st.integers(1, 14), st.integers(1, 12), st.booleans())
     plain = wone_of(disc, disc, disc, line, grid)
-    return wone_of(plain, st.builds(lambda a, b: dict(a, later=b), plain, plain))
+    return with_done(wone_of(plain, st.builds(lambda a, b: dict(a, later=b), plain, plain)))
 
 
 def exhaustive(tier):
